@@ -60,10 +60,14 @@ def run_variant(v, kind):
             r = subprocess.run([os.path.join(VERIF, "check"), p], env=env, capture_output=True, text=True)
             outs[p] = (r.returncode, r.stdout)
         if kind == "benign":
-            bad = {p: o for p, o in outs.items() if o[0] != 0}
+            # documented limits: a check may answer INCONCLUSIVE (exit 2, no VIOLATION line) on this variant
+            lim = set(v.get("inconclusive_ok", []))
+            bad = {p: o for p, o in outs.items() if o[0] != 0 and not (p in lim and o[0] == 2 and "VIOLATION" not in o[1])}
             if bad:
                 msg = "; ".join("%s rc=%d %s" % (p, o[0], " | ".join(l.strip()[:160] for l in o[1].splitlines() if "violation" in l or "INCONCLUSIVE" in l)[:400]) for p, o in bad.items())
                 return v["id"], False, "checks not silent on a benign variant: " + msg
+            if lim:
+                return v["id"], True, "all checks silent except the documented INCONCLUSIVE of %s" % sorted(lim)
             return v["id"], True, "all %d checks silent" % len(props)
         # mutant: every expected rule prefix must appear in a violation line of its property
         missing = []
